@@ -509,6 +509,9 @@ func c20Run(p *c20pool, jobs []c20job, inject *rand.Rand, start time.Time, rec *
 func runC20(c *fw.Ctx) {
 	c20Canary()
 	Gs := []int{2, 4, 8, 16, 32}
+	if !c.Quick() {
+		Gs = append(Gs, 64)
+	}
 	Ps := []int{1, 2, 4, 16}
 	runs := c.Pick(160, 4000)
 	for i := 0; i < runs; i++ {
